@@ -352,59 +352,67 @@ func verifC02(c *drv.Ctx) {
 		}
 	}
 	rec(nil)
-	// (iii) 4-byte and 16-byte spellings of destinations in target files against exclusions
-	for _, cmd := range cmds {
-		if !cmd.file {
+	// (iii) 4-byte and 16-byte spellings of destinations in target files against exclusions: every command
+	// that reads targets from a file (the file/exclude combination is wired per command), pairs files and,
+	// for the port scans, address files with -p
+	for _, cmd0 := range c02cmds {
+		if !cmd0.file {
 			continue
 		}
-		for _, spell := range []string{"10.0.1.19", "::ffff:10.0.1.19", "::ffff:a00:113", "0:0:0:0:0:ffff:10.0.1.19"} {
-			for _, ex := range []string{"10.0.1.19", "10.0.1.16/28", "10.0.2.0/24"} {
-				idx++
-				if !c.Mine(idx) || c.Expired() {
-					continue
-				}
-				args := []string{}
-				for _, a := range cmd.args {
-					if a == "-p" {
-						break
+		for _, addrFile := range []bool{false, true} {
+			cmd := cmd0
+			if addrFile && !cmd.ports {
+				continue
+			}
+			for _, spell := range []string{"10.0.1.19", "::ffff:10.0.1.19", "::ffff:a00:113", "0:0:0:0:0:ffff:10.0.1.19"} {
+				for _, ex := range []string{"10.0.1.19", "10.0.1.16/28", "10.0.2.0/24"} {
+					idx++
+					if !c.Mine(idx) || c.Expired() {
+						continue
 					}
-					args = append(args, a)
-				}
-				port := map[string]int{"tcp-syn": 80, "socks": 1080, "udp": 53, "tcp-fin": 80, "tcp-flags": 80, "elastic": 9200, "docker": 2375}[cmd.name]
-				var file string
-				if cmd.ports {
-					file = fmt.Sprintf("{\"ip\":%q,\"port\":%d}\n{\"ip\":\"10.0.2.7\",\"port\":%d}\n", spell, port, port)
-				} else {
-					file = fmt.Sprintf("{\"ip\":%q}\n{\"ip\":\"10.0.2.7\"}\n", spell)
-				}
-				sc := &vE2ESpec{Args: append(args, "--json", "--exclude", "{DIR}/ex.txt", "-f", "{DIR}/t.jsonl"),
-					Files: map[string]string{"ex.txt": ex + "\n", "t.jsonl": file}, Positive: func(string, uint16) bool { return false }}
-				if cmd.kind != "app" {
-					sc.Stdin = vGatewayCache
-				}
-				run, x := vE2EOnce(sc)
-				c.Eval(1)
-				c.Nontrivial(1)
-				desc := fmt.Sprintf("%s -f [%s, 10.0.2.7] --exclude %s", cmd.name, spell, ex)
-				rep := map[string]any{"part": "c02", "args": sc.Args, "files": sc.Files}
-				key := fmt.Sprintf("exclude-spelling:%s:%s:%s", cmd.name, spell, ex)
-				if _, err := vBasic(x); err != nil {
-					c.Fail(key+":crash", desc+": "+err.Error(), rep)
-					continue
-				}
-				dests, _ := c02dests(cmd, run)
-				a19, _ := zzref.RefIPv4("10.0.1.19")
-				n19 := 0
-				for _, d := range dests {
-					if d == a19 {
-						n19++
+					args := []string{}
+					for _, a := range cmd.args {
+						if a == "-p" && !addrFile {
+							break
+						}
+						args = append(args, a)
 					}
+					port := map[string]int{"tcp-syn": 80, "socks": 1080, "udp": 53, "tcp-fin": 80, "tcp-flags": 80, "elastic": 9200, "docker": 2375}[cmd.name]
+					var file string
+					if cmd.ports && !addrFile {
+						file = fmt.Sprintf("{\"ip\":%q,\"port\":%d}\n{\"ip\":\"10.0.2.7\",\"port\":%d}\n", spell, port, port)
+					} else {
+						file = fmt.Sprintf("{\"ip\":%q}\n{\"ip\":\"10.0.2.7\"}\n", spell)
+					}
+					sc := &vE2ESpec{Args: append(args, "--json", "--exclude", "{DIR}/ex.txt", "-f", "{DIR}/t.jsonl"),
+						Files: map[string]string{"ex.txt": ex + "\n", "t.jsonl": file}, Positive: func(string, uint16) bool { return false }}
+					if cmd.kind != "app" {
+						sc.Stdin = vGatewayCache
+					}
+					run, x := vE2EOnce(sc)
+					c.Eval(1)
+					c.Nontrivial(1)
+					desc := fmt.Sprintf("%s -f [%s, 10.0.2.7] (address file with -p: %v) --exclude %s", cmd.name, spell, addrFile, ex)
+					rep := map[string]any{"part": "c02", "args": sc.Args, "files": sc.Files}
+					key := fmt.Sprintf("exclude-spelling:%s:%s:%s:addrfile=%v", cmd.name, spell, ex, addrFile)
+					if _, err := vBasic(x); err != nil {
+						c.Fail(key+":crash", desc+": "+err.Error(), rep)
+						continue
+					}
+					dests, _ := c02dests(cmd, run)
+					a19, _ := zzref.RefIPv4("10.0.1.19")
+					n19 := 0
+					for _, d := range dests {
+						if d == a19 {
+							n19++
+						}
+					}
+					excluded := ex != "10.0.2.0/24"
+					if excluded && n19 > 0 {
+						c.Fail(key+":excluded-probed", desc+": the excluded address 10.0.1.19 was probed", rep)
+					}
+					c.Outcome(fmt.Sprintf("spell:%d", len(dests)))
 				}
-				excluded := ex != "10.0.2.0/24"
-				if excluded && n19 > 0 {
-					c.Fail(key+":excluded-probed", desc+": the excluded address 10.0.1.19 was probed", rep)
-				}
-				c.Outcome(fmt.Sprintf("spell:%d", len(dests)))
 			}
 		}
 	}
